@@ -46,15 +46,15 @@ tvars == <<vars, l, viol, exp, rmode>>
 Trace == ndJsonDeserialize("trace.ndjson")
 Ev == Trace[l]
 
-CfgOf(e) == [n |-> e.n, npe |-> e.npe, maxmsg |-> e.maxmsg, asis |-> FALSE, guard |-> TRUE]
-RCfgOf(e) == [n |-> e.n, npe |-> 1, maxmsg |-> e.maxmsg, asis |-> FALSE, guard |-> TRUE]
+CfgOf(e) == [n |-> e.n, npe |-> e.npe, maxmsg |-> e.maxmsg, asis |-> FALSE, guard |-> TRUE, afpark |-> FALSE]
+RCfgOf(e) == [n |-> e.n, npe |-> 1, maxmsg |-> e.maxmsg, asis |-> FALSE, guard |-> TRUE, afpark |-> FALSE]
 
 Nxt(v) == l' = l + 1 /\ viol' = v
 KeepR == UNCHANGED <<exp, rmode>>
 
 TraceInit ==
     /\ l = 1 /\ viol = "" /\ exp = << >> /\ rmode = "sync"
-    /\ InitWith([n |-> 1, npe |-> 1, maxmsg |-> 65536, asis |-> FALSE, guard |-> TRUE], "down")
+    /\ InitWith([n |-> 1, npe |-> 1, maxmsg |-> 65536, asis |-> FALSE, guard |-> TRUE, afpark |-> FALSE], "down")
     /\ TLCSet(1, 1) /\ TLCSet(2, << >>)
 
 -----------------------------------------------------------------------------
